@@ -217,7 +217,8 @@ def run_property(prop, tier, replay=None):
     elif evals == 0 or len(distinct) < 2:
         inconclusive = "observed nothing (evaluations=%d distinct=%d)" % (evals, len(distinct))
     rc = finish(prop, tier, seed, getattr(mod, "LEVEL", "exploration"), cov, getattr(mod, "ASSUMPTIONS", []), viol, t0, inconclusive)
-    print("%s tier=%s seed=%d evaluations=%d distinct_nontrivial=%d violations=%d wall=%.1fs rc=%d" % (prop, tier, seed, evals, len(distinct), len([1 for k in viol]), time.time() - t0, rc))
+    okeys = set(k["key"] for k in load_known() if k.get("property") == prop and k.get("status") == "open")
+    print("%s tier=%s seed=%d evaluations=%d distinct_nontrivial=%d violations=%d known_findings=%d wall=%.1fs rc=%d" % (prop, tier, seed, evals, len(distinct), len([1 for k in viol if k not in okeys]), len([1 for k in viol if k in okeys]), time.time() - t0, rc))
     return rc
 
 def replay(path, config=None):
